@@ -7,7 +7,7 @@ CONSTANTS
   Iters <- MainJoins1
   L = 3
   UserBps = {1}
-  MaxCmd = 3
+  MaxCmd = 2
   Cmds = {"continue"}
   Sigs = {}
   Quiet = {}
